@@ -24,7 +24,7 @@ dst = os.path.join(extra_dir, pid + '.json')
 backup = open(dst).read() if os.path.exists(dst) else None
 
 def builtin_count():
-    r = subprocess.run([os.path.join(root, 'bin', 'gsa'), '-property', pid, '-nbuiltin'], capture_output=True, text=True, env=env, cwd=root)
+    r = subprocess.run([os.environ.get('GSA_BIN', os.path.join(root, 'bin', 'gsa')), '-property', pid, '-nbuiltin'], capture_output=True, text=True, env=env, cwd=root)
     return int(r.stdout.strip().splitlines()[-1])
 
 ok = []
@@ -40,7 +40,7 @@ keep = []
 missed = []
 try:
     for i, c in enumerate(ok):
-        r = subprocess.run([os.path.join(root, 'bin', 'gsa'), '-property', pid, '-tier', 'quick', '-mutant', str(base + i)],
+        r = subprocess.run([os.environ.get('GSA_BIN', os.path.join(root, 'bin', 'gsa')), '-property', pid, '-tier', 'quick', '-mutant', str(base + i)],
                            capture_output=True, text=True, env=env, cwd=root)
         code = r.returncode
         eq = bool(c.get('equivalent'))
